@@ -426,6 +426,19 @@ func CreateDB(dbName string) error {
 }
 
 func (rs *RelationService) CreateTable(r *Relation, tableName string) error {
+	if err := rs.createTable(r, tableName); err != nil {
+		return err
+	}
+	return rs.fs.flushPages()
+}
+
+// createTable adds the table to the catalog. Like every statement that changes
+// pages it holds the shared lock, which keeps the page flusher out until the
+// change is complete.
+func (rs *RelationService) createTable(r *Relation, tableName string) error {
+	rs.fs.lockShared()
+	defer rs.fs.unlockShared()
+
 	_, err := rs.getRelationFileOffset(tableName)
 	if err != ErrTableNotExist {
 		return ErrTableAlreadyExist
@@ -445,11 +458,7 @@ func (rs *RelationService) CreateTable(r *Relation, tableName string) error {
 	if err := rs.insertPageTable(pg, tableName); err != nil {
 		return err
 	}
-	if err := rs.insertSchemaTable(r, tableName); err != nil {
-		return err
-	}
-
-	return rs.fs.flushPages()
+	return rs.insertSchemaTable(r, tableName)
 }
 
 func (rs *RelationService) createPage() (*btreeNode, error) {
